@@ -363,7 +363,7 @@ class World:
         r = ref or T["OutputReference"](b"\x00" * 32, 0)
         return T["Transaction"]([T["Input"](r, sig)], [T["Output"](v, self.keys.public_key(k)) for (v, k) in outs])
 
-    def mine(self, parent_hash, height, ts, target, txs, pow_ok=True, ev_ok=True, merkle_ok=True, nonce0=0, forge=""):
+    def mine(self, parent_hash, height, ts, target, txs, pow_ok=True, ev_ok=True, merkle_ok=True, nonce0=0, forge="", alt_tip=None):
         """forge (only with ev_ok=False): "" = one bit of the evidence hash flipped; "summary_hash" = a coherent forgery whose
         summary hash is *not* scrypt of the summary (sample and evidence hash derived from it consistently);
         "sample" = wrong sample bytes with a consistent evidence hash."""
@@ -389,6 +389,17 @@ class World:
                     sh, sample, bh = indep.evidence(summary, height, txs, lambda h: self.chain_bytes(parent_hash, h), lambda a, b_: sh)
                 except (KeyError, ZeroDivisionError):
                     sample, bh = b"\x00" * 32, indep.blake2(sh + b"\x00" * 32 + indep.enc_txlist(txs))
+            elif not ev_ok and forge == "otherchain" and alt_tip is not None:
+                # a coherent forgery whose chain sample is cut from another stored chain (blocks that are not this block's ancestors)
+                proper = sample
+                try:
+                    sh, sample, bh = indep.evidence(summary, height, txs, lambda h: self.chain_bytes(alt_tip, h), scr)
+                except (KeyError, ZeroDivisionError):
+                    sample = proper
+                if sample == proper:
+                    if nonce < nonce0 + 300:
+                        continue                 # this nonce samples below the fork point: try another one
+                    bh = bytes([bh[0] ^ 1]) + bh[1:]
             elif not ev_ok and forge == "sample":
                 sample = bytes([sample[0] ^ 0x10]) + sample[1:]
                 bh = indep.blake2(sh + sample + indep.enc_txlist(txs))
@@ -506,8 +517,11 @@ class World:
         if mut == "badtarget":
             v = (int.from_bytes(exp, "big") + 1) % (1 << 256)
             target = v.to_bytes(32, "big")
+        forge, alt_tip = ["", "summary_hash", "sample"][(d["id"] + d["ts"]) % 3], None
+        if mut == "evidence_otherchain" and d.get("alt_tip", -1) in self.by_abs:
+            forge, alt_tip = "otherchain", indep.blockid(self.by_abs[d["alt_tip"]])
         blk = self.mine(parent_hash, d["height"], d["ts"], target, txs, pow_ok=d["powok"], ev_ok=d["evok"],
-                        merkle_ok=d["merkleok"], forge=["", "summary_hash", "sample"][(d["id"] + d["ts"]) % 3])
+                        merkle_ok=d["merkleok"], forge=forge, alt_tip=alt_tip)
         self.by_abs[d["id"]] = blk
         self.register(blk)
         return blk
